@@ -74,7 +74,7 @@ pub fn lexiter(out: &mut Out, tier: &Tier, rng: &mut Rng) {
     let (alpha, l): (&[char], usize) = if tier.thorough { (LEX_ALPHABET, 5) } else { (LEX_ALPHABET_Q, 4) };
     for text in all_texts_up_to(alpha, l) {
         // every filter mask x two scanners on LF; other endings sampled
-        for sc in [1usize, 3] {
+        for sc in [1usize, 3, 5] {
             lexiter_case(out, &text, LineEnding::Lf, 4, sc, None);
             for mask in 1..16u32 {
                 if !tier.thorough && !(mask == 1 || mask == 3 || mask == 5 || mask == 15) { continue; }
@@ -82,14 +82,14 @@ pub fn lexiter(out: &mut Out, tier: &Tier, rng: &mut Rng) {
             }
         }
         let le = *rng.pick(LINE_ENDINGS);
-        lexiter_case(out, &text, le, 1 + rng.below(8) as u8, rng.below(4), Some(rng.below(16) as u32));
+        lexiter_case(out, &text, le, 1 + rng.below(8) as u8, rng.below(8), Some(rng.below(16) as u32));
     }
     let extra = if tier.thorough { 60000 } else { 3000 };
     for _ in 0..extra {
         let text = random_text(rng, ALPHABET, 16);
         let le = *rng.pick(LINE_ENDINGS);
         let filter = if rng.chance(1, 4) { None } else { Some(rng.below(16) as u32) };
-        lexiter_case(out, &text, le, 1 + rng.below(9) as u8, rng.below(4), filter);
+        lexiter_case(out, &text, le, 1 + rng.below(9) as u8, rng.below(8), filter);
     }
 }
 
@@ -431,7 +431,7 @@ pub fn lexops(out: &mut Out, tier: &Tier, rng: &mut Rng) {
         let le = *rng.pick(LINE_ENDINGS);
         let tab = 1 + rng.below(8) as u8;
         let h = random_history(rng, 9, i % 3 == 0, i % 2 == 0);
-        lexops_case(out, &text, le, tab, 1 + 2 * rng.below(2), &h);
+        lexops_case(out, &text, le, tab, 1 + 2 * rng.below(4), &h);
     }
 }
 
